@@ -200,14 +200,66 @@ def part_comment(chk, fns, decls):
         chk.sample({'fn': 'block_comment_length', 'bytes': list(bs), 'native': nat})
         if nat.get('len', 'panic') != pred: raise Inconclusive(f'block_comment_length witness mismatch on {bs!r}: predicted {pred}, native {nat}')
 
+def part_find_definitions(chk):
+    """Package::find_definitions (runs on every decoded package): no panic for any well-formed component type"""
+    fns = chk.load('wac-types'); decls = chk.decls('wac-types')
+    K = chk.pick(2, 3)
+    chk.bounds['Package::find_definitions'] = {'exports_max': K, 'nested_component_type_exports_max': K}
+    def m_index(ctx):
+        at = ctx.args[0]; idv = ctx.deref(ctx.args[1]); at = ctx.deref(at) if isinstance(at, Ref) else at
+        return ctx.ret(Ref(at.kid(f'[{idv.name}]', 'component::World'), ()))
+    def m_cname_new(ctx):
+        # export names of a validated component are valid component names (stated assumption)
+        return ctx.ret(models.ok(engine.Opaque('ComponentName')))
+    def m_cname_kind(ctx): return ctx.ret(Lazy(f'namekind{engine.fresh_id()}', 'ComponentNameKind'))
+    eng = chk.engine(fns, decls, vec_cap=K, loop_bound=K + 2, overrides=[
+        (r'^<component::Types as Index<component::WorldId>>::index', m_index),
+        (r'^wasmparser::names::ComponentName::new$', m_cname_new), (r'^wasmparser::names::ComponentName::kind$', m_cname_kind)])
+    eng.atom_strings = True
+    fname = eng.find_fn(r'^package::<impl at [^>]*>::find_definitions$')
+    types = engine.norm_lazy(Lazy('types', '&component::Types')); world = Lazy('world', 'component::WorldId')
+    outs = run_fn(eng, fname, [types, world]); chk.account(eng, [fname])
+    bad = [o for o in outs if o.kind != 'ret']
+    nik = len(decls.enums['ItemKind']); nty = len(decls.enums['Type'])
+    r, m = chk.obligation('find_definitions: no panic on any component type (exports <= K)', list(eng.assumptions) + [Or([o.cond() for o in bad]) if bad else BoolVal(False)],
+                          base=list(eng.assumptions))
+    if r == 'sat':
+        hit = [o for o in bad if ev_bool(m, o.cond())][0]
+        # realise: the nested component type's export count decides; use canonical WAT per count
+        nested = [l for l in harness_all_lazies(types.base) if l._len is not None and 'Type.0.World.0' in l.name and l.name.count('[') >= 2]
+        n = ev_int(m, nested[0].len()) if nested else 0
+        exports = ' '.join(f'(export "e{i}" (func))' for i in range(n))
+        wat = f'(component (type (component {exports})) (export "t" (type 0)))'
+        nat = chk.native({'op': 'package_from_wat', 'wat': wat})
+        if 'panic' in nat:
+            chk.finding('find-definitions-panic', f'Package::from_bytes panics ({nat["panic"]}) on the valid component `{wat}` (site: {hit.site})', {'op': 'package_from_wat', 'wat': wat})
+        else:
+            raise Inconclusive(f'find_definitions: predicted panic {hit.site} does not reproduce on `{wat}`: {nat}')
+    else:
+        for wat in ['(component (type (component)) (export "t" (type 0)))',
+                    '(component (type (component (export "a:b/c" (instance)))) (export "t" (type 0)))',
+                    '(component (type (component (export "a" (func)) (export "b" (func)))) (export "t" (type 0)))']:
+            nat = chk.native({'op': 'package_from_wat', 'wat': wat})
+            if 'panic' in nat or 'error' in nat: raise Inconclusive(f'native decode of `{wat}` gives {nat} although no panic path is feasible in the encoding')
+            chk.sample({'fn': 'Package::from_bytes', 'wat': wat, 'native': nat})
+
+def harness_all_lazies(root):
+    out = []
+    def walk(l):
+        out.append(l)
+        for k in list(l.kids.values()): walk(k)
+    walk(root); return out
+
 def body(chk):
     fns = chk.load('wac-parser'); decls = chk.decls()
     chk.assumptions += ['logos contract for Lexer::span: 0 <= start <= end <= len, both on char boundaries (logos itself is not encoded)',
                         'sources are valid UTF-8 of bounded length',
-                        'whole-pipeline robustness (parser productions, resolver, package decoder, encoder) is outside the claim']
+                        'export names of a validated component are valid component names (ComponentName::new succeeds)',
+                        'whole-pipeline robustness (parser productions, resolver, the rest of the package decoder, encoder) is outside the claim']
     chk.phase('Lexer::span'); part_span(chk, fns, decls)
     chk.phase('detect_invalid_input'); part_screen(chk, fns, decls)
     chk.phase('block_comment_length'); part_comment(chk, fns, decls)
+    chk.phase('Package::find_definitions'); part_find_definitions(chk)
 
 if __name__ == '__main__':
     harness.run_check('C14', body)
